@@ -347,6 +347,9 @@ fn leaf_value(rng: &mut Rng, k: usize, v: &Vary) -> Value {
         "i8" => sval::int("i8", rng.range(-128, 127) as i128),
         "i16" => sval::int("i16", rng.range(-32768, 32767) as i128),
         "i32" => sval::int("i32", rng.range(-100000, 100000) as i128),
+        // extremes: beyond f64's exact integer range (2^53) and at the ends of the type
+        "i64" if rng.chance(1, 6) => sval::int("i64", *rng.pick(&[i64::MIN as i128, i64::MAX as i128, (1i128 << 53) + 1, -(1i128 << 53) - 1, (1i128 << 62) + 3])),
+        "u64" if rng.chance(1, 6) => sval::int("u64", *rng.pick(&[u64::MAX as i128, 1i128 << 63, (1i128 << 53) + 1, i64::MAX as i128])),
         "i64" => sval::int("i64", rng.range(-1 << 40, 1 << 40) as i128),
         "u8" => sval::int("u8", rng.range(0, 255) as i128),
         "u16" => sval::int("u16", rng.range(0, 65535) as i128),
@@ -501,6 +504,11 @@ fn nested_grid() -> Vec<(Vec<Value>, bool)> {
     // struct and map at one position (finding #26)
     g.push((vec![rec(vec![("b", i(1)), ("a", i(2))]), smap(vec![("b", i(1)), ("a", i(2))])], false));
     g.push((vec![smap(vec![("b", i(1)), ("a", i(2))]), rec(vec![("b", i(1)), ("a", i(2))])], true));
+    // integers beyond f64's exact range next to floats (coerce_numbers: int → float is the documented lossy cell)
+    g.push((vec![sval::int("i64", (1i128 << 53) + 1), sval::f64v(1.5)], true));
+    g.push((vec![sval::f64v(1.5), sval::int("i64", i64::MAX as i128), sval::int("i64", i64::MIN as i128)], true));
+    g.push((vec![sval::f32v(0.5), sval::int("u64", u64::MAX as i128)], true));
+    g.push((vec![rec(vec![("x", sval::int("u64", (1i128 << 63) + 1))]), rec(vec![("x", sval::f64v(2.0))])], true));
     // tuples
     g.push((vec![tuple(vec![i(1), string("a")]), tuple(vec![i(2), string("b")])], true));
     g.push((vec![tuple(vec![]), tuple(vec![])], true));
